@@ -82,6 +82,7 @@ REV=[
  ("a description without words was formatted to a blank line",["C09"],"R-COVER/nonempty"),
  ("descriptions with repeated or trailing blanks wrapped differently on a second format",["C09"],"R-CONST/words"),
  ("the default status filter of an entity named status values which do not exist",["C17"],"R-PROV/statusname"),
+ ("a printed type reference could be captured by a nested type or a package component of the same name",["C05", "C04"],"R-FLOW/refscope"),
 ]
 n=0
 for sub,props,expect in REV:
